@@ -55,6 +55,10 @@ type ClaimSpec struct {
 	UnhealthyStepS int    `json:"unhealthyStepS,omitempty"` // clock step before the unhealthy condition is set
 	UnhealthyGapS  int    `json:"unhealthyGapS,omitempty"`  // clock step between two unhealthy conditions of the same node
 	NoiseCond      bool   `json:"noiseCond,omitempty"`      // Node carries a policy condition type in the non-matching status
+	// JoinsDuringPass: the claim is only created when the reaper runs; inside the pass (right after the provider's List took
+	// its snapshot / right after the NodeClaim list returned) its scale-up completes: instance launched, Node joined
+	// NotReady, NodeClaim Registered
+	JoinsDuringPass string `json:"joinsDuringPass,omitempty"` // "" | provider-list | claim-list
 }
 
 // ExtraNode is a hand-built Node without a NodeClaim (not managed by Karpenter).
@@ -98,6 +102,9 @@ type W struct {
 
 	failing   map[string]bool
 	recovered bool
+	joined    map[int]bool // claims whose in-pass scale-up has been played
+	toCreate  map[int]*provscheduling.NodeClaim
+	joins     int
 
 	mu        sync.Mutex
 	cur       string // reaper currently reconciling
@@ -175,7 +182,7 @@ func build(S Spec, seed int64) (*W, error) {
 	cfg.Options = test.OptionsFields{FeatureGates: test.FeatureGates{NodeRepair: &nr}}
 	sc := common.Build(rng, cfg)
 	e := sc.Env
-	w := &W{S: S, E: e, Sc: sc, Names: make([]string, len(S.Claims)), PIDs: make([]string, len(S.Claims)), Nodes: make([]string, len(S.Claims)), failing: map[string]bool{}}
+	w := &W{S: S, E: e, Sc: sc, Names: make([]string, len(S.Claims)), PIDs: make([]string, len(S.Claims)), Nodes: make([]string, len(S.Claims)), failing: map[string]bool{}, joined: map[int]bool{}, toCreate: map[int]*provscheduling.NodeClaim{}}
 	e.Provider.Repair = S.policies()
 	e.Provider.CreateErrFn = func(nc *v1.NodeClaim) error {
 		if w.failing[nc.Name] && !w.recovered {
@@ -232,6 +239,10 @@ func build(S Spec, seed int64) (*W, error) {
 		}
 		nc := byPod[pods[i].Name]
 		if nc == nil {
+			continue
+		}
+		if c.JoinsDuringPass != "" {
+			w.toCreate[i] = nc // created, launched and registered inside the pass under test
 			continue
 		}
 		name, err := e.Prov.Create(e.Ctx, nc)
